@@ -28,6 +28,8 @@ func Run(tt *testing.T) func(t *sim.Tape, profile, tier string) *sim.RunResult {
 				kind = runHostile(s)
 			case "C20":
 				kind = runText(s)
+			case "C11":
+				kind = runCodec(s)
 			default:
 				kind = runC19(s, tier)
 			}
@@ -39,6 +41,9 @@ func Run(tt *testing.T) func(t *sim.Tape, profile, tier string) *sim.RunResult {
 			res.Stats, res.Violations = s.stats, s.viols
 			res.Stats.Inc("session." + kind)
 			res.Nontrivial = s.stats["net.deliveries"] > 0 || s.stats["merkle.ops"] > 0
+			if profile == "C11" {
+				res.Nontrivial = s.stats["codec.objects"] > 0
+			}
 			if profile == "C20" {
 				res.Nontrivial = s.stats["text.parsed"] > 0
 			}
